@@ -36,7 +36,7 @@ Proof. intros. cbn. apply name_eqb_eq. Qed.
 Lemma store_bytes_le8 : forall t, wf_xtype t -> is_double_complex t = false -> 0 <= store_bytes t <= 8.
 Proof.
   intros t W NC. unfold store_bytes. rewrite byref_agrees.
-  destruct t as [| n s | s | | s]; cbn in *; try lia.
+  destruct t as [| n s | s | s | | s]; cbn in *; try lia.
   destruct (name_eqb n LONG_DOUBLE) eqn:E1; [lia |].
   destruct W as (W1 & W2 & W3).
   assert (N1 : n <> LONG_DOUBLE) by (intro Q; apply name_eqb_eq in Q; congruence).
@@ -50,7 +50,7 @@ Proof.
   intros n r Hn W.
   pose proof (size_of_a_lower n r) as [L1 L2].
   unfold result_write_bytes, size_of_result.
-  destruct r as [| nm s | s | | s]; cbn [isinstance_VoidType sizeof] in *; try lia.
+  destruct r as [| nm s | s | s | | s]; cbn [isinstance_VoidType sizeof] in *; try lia.
   - (* primitive *)
     destruct W as (W1 & W2 & W3).
     destruct (name_eqb nm LONG_DOUBLE) eqn:E1; [| destruct (name_eqb nm DOUBLE_COMPLEX) eqn:E2].
@@ -65,9 +65,12 @@ Proof.
     + assert (s <= 8).
       { apply W3; intro H; apply name_eqb_eq in H; congruence. }
       lia.
-  - (* struct / union *)
+  - (* struct *)
     unfold size_of_a in *. cbn [isinstance_StructOrUnion sizeof] in *.
-    destruct (s >? size_of_a_num n (XStructOrUnion s)) eqn:E; lia.
+    destruct (s >? size_of_a_num n (XStruct s)) eqn:E; lia.
+  - (* union *)
+    unfold size_of_a in *. cbn [isinstance_StructOrUnion sizeof] in *.
+    destruct (s >? size_of_a_num n (XUnion s)) eqn:E; lia.
   - (* enum *) cbn in W. lia.
 Qed.
 
